@@ -4,6 +4,7 @@ import (
 	"bytes"
 	"context"
 	"encoding/json"
+	"errors"
 	"fmt"
 	"io"
 	"os"
@@ -79,6 +80,7 @@ BEGIN {
 	if (mode == "cmdopen") { print "to-cat" | "cat"; r1 = ("emit a b" | getline l1); x = system("emit s0"); print "again" | "cat" }
 	if (mode == "setmodes") { INPUTMODE = "csv header"; OUTPUTMODE = "tsv" }
 	if (mode == "probe") {
+		print "B first", "x y", "p,q" # the first output of the run goes through print (CSV / TSV writer in those modes)
 		if (full) dumpvars("B")
 		printf "B rec [%s] NF=%s NR=%s FNR=%s FILENAME=[%s] $1=[%s]\n", $0, NF, NR, FNR, FILENAME, $1
 		printf "B modes [%s] [%s]\n", INPUTMODE, OUTPUTMODE
@@ -106,6 +108,7 @@ BEGIN {
 $1 == "a" || $1 == "s", $1 == "never" { inr++; if (mode == "probe") printf "R range [%s]\n", $0 }
 mode == "plain" { fc = sprintf("%c%c", "\303\251x", 233); dr = ($0 ~ ("^" "a")) + ($0 ~ ("^h." "$")); if (NR == 2) sr = srand(5); cnt++; last = $0; arr[NR] = $1; if (match($0, /[b-d2-3]+/)) rs = RSTART; r = rand(); $2 = "X"; nf = NF; len = length("h\303\251") }
 mode == "csv" || mode == "setmodes" { v = @"b"; fld = FIELDS[1]; cnt++; print v, fld }
+mode == "printrec" { print $1, $2; cnt++ }
 mode == "exitrule" && NR == 2 { exit 3 }
 mode == "exitrule" { cnt++ }
 mode == "errrule" { cnt++; x = 1 / (2 - NR) }
@@ -143,6 +146,23 @@ type c14Cfg struct {
 	NoArgVars    bool     `json:"no_arg_vars,omitempty"`
 	Chars        bool     `json:"chars,omitempty"`
 	CRLF         bool     `json:"crlf,omitempty"`
+	// SharedOut: Config.Output is the environment's one shared writer object (the
+	// same value in every run that sets it); with FailOut it fails every write of this run
+	SharedOut bool `json:"shared_out,omitempty"`
+	FailOut   bool `json:"fail_out,omitempty"`
+}
+
+// c14SharedWriter is handed to several runs as the same io.Writer value.
+type c14SharedWriter struct {
+	fail bool
+	buf  bytes.Buffer
+}
+
+func (w *c14SharedWriter) Write(p []byte) (int, error) {
+	if w.fail {
+		return 0, errors.New("disk quota exceeded")
+	}
+	return w.buf.Write(p)
 }
 
 // c14Op is one operation on the Interpreter.
@@ -222,10 +242,12 @@ func c14Alphabet(thorough bool) []c14Op {
 		cx("plain", 1, c14Cfg{Stdin: "a b\nc d e\n", Vars: c14v("plain")}),
 		cx("plain", 0, c14Cfg{Stdin: "a b\nc d e\n", Vars: c14v("plain")}), // completes under a context that is cancelled afterwards
 		ex("cmdopen", c14Cfg{Stdin: "a\n", Vars: c14v("cmdopen")}),
-		ex("exitfunc", c14Cfg{Stdin: "a\n", Vars: c14v("exitfunc")}), // exit inside a function that has filled local arrays
-		ex("errfunc2", c14Cfg{Stdin: "a\n", Vars: c14v("errfunc2")}), // run-time error there
-		ex("srandonly", c14Cfg{Stdin: "", Vars: c14v("srandonly")}),  // seeds, never draws
-		ex("srandrand", c14Cfg{Stdin: "", Vars: c14v("srandrand")}),  // seeds, draws, seeds again
+		ex("exitfunc", c14Cfg{Stdin: "a\n", Vars: c14v("exitfunc")}),                                                                // exit inside a function that has filled local arrays
+		ex("errfunc2", c14Cfg{Stdin: "a\n", Vars: c14v("errfunc2")}),                                                                // run-time error there
+		ex("csv-write-error", c14Cfg{Stdin: "a b\nc d e\n", OutputMode: 1, SharedOut: true, FailOut: true, Vars: c14v("printrec")}), // every write to the shared Output fails
+		ex("plain-write-error", c14Cfg{Stdin: "a b\nc d e\n", SharedOut: true, FailOut: true, Vars: c14v("printrec")}),              // the same in default output mode
+		ex("srandonly", c14Cfg{Stdin: "", Vars: c14v("srandonly")}),                                                                 // seeds, never draws
+		ex("srandrand", c14Cfg{Stdin: "", Vars: c14v("srandrand")}),                                                                 // seeds, draws, seeds again
 		cx("cmdopen", 0, c14Cfg{Stdin: "a\n", Vars: c14v("cmdopen")}),
 		ex("wopen", c14Cfg{Stdin: "a\n", Vars: c14v("wopen")}),
 		ex("ropen", c14Cfg{Stdin: "s1 s2\ns3\n", Vars: c14v("ropen")}),
@@ -270,6 +292,8 @@ func c14Probes() []c14Probe {
 		{Name: "args", Cfg: c14Cfg{Stdin: "unused\n", Args: []string{"f1", "q=7", "f2"}, Vars: pv("0")}},
 		{Name: "tsv-chars", Cfg: c14Cfg{Stdin: "a\tb c\n", Chars: true, Vars: append(pv("0"), "INPUTMODE", "tsv", "OUTPUTMODE", "csv")}},
 		{Name: "ctx", Ctx: true, Cfg: c14Cfg{Stdin: "p q r\ns t\n", Vars: pv("0")}},
+		{Name: "csv-out-shared", Cfg: c14Cfg{Stdin: "p q r\ns t\n", OutputMode: 1, SharedOut: true, Vars: pv("0")}},
+		{Name: "tsv-out-shared", Cfg: c14Cfg{Stdin: "p q r\ns t\n", OutputMode: 2, SharedOut: true, Vars: pv("0")}},
 		{Name: "sandbox", Cfg: c14Cfg{Stdin: "p q\n", NoExec: true, NoFileReads: true, NoFileWrites: true, Vars: append(pv("0"), "cmd", "0")}},
 	}
 }
@@ -354,6 +378,7 @@ func (c14World) Wait(c *vexp.Cmd) error {
 }
 
 type c14Env struct {
+	shared   *c14SharedWriter // one per replay / fresh run
 	prog     *parser.Program
 	dir      string
 	maxSteps int
@@ -427,6 +452,11 @@ func (e *c14Env) apply(ip *interp.Interpreter, op c14Op) c14Res {
 	}
 	var out, errw bytes.Buffer
 	cfg := op.Cfg.config(&out, &errw)
+	if op.Cfg.SharedOut {
+		e.shared.fail = op.Cfg.FailOut
+		e.shared.buf.Reset()
+		cfg.Output = e.shared
+	}
 	var res c14Res
 	if op.Kind == "ctx" {
 		ctx, cancel := context.WithCancel(context.Background())
@@ -436,12 +466,16 @@ func (e *c14Env) apply(ip *interp.Interpreter, op c14Op) c14Res {
 		res = e.guarded(0, nil, func() (int, error) { return ip.Execute(cfg) })
 	}
 	res.Out, res.Stderr = out.String(), errw.String()
+	if op.Cfg.SharedOut {
+		res.Out = e.shared.buf.String()
+	}
 	return res
 }
 
 // replay applies the history to a brand-new Interpreter.
 func (e *c14Env) replay(hist []c14Op) (*interp.Interpreter, []c14Res) {
 	e.fixture()
+	e.shared = &c14SharedWriter{}
 	ip, err := interp.New(e.prog)
 	if err != nil {
 		panic(err)
@@ -456,9 +490,17 @@ func (e *c14Env) replay(hist []c14Op) (*interp.Interpreter, []c14Res) {
 func (e *c14Env) fresh(p c14Probe, oracle int) c14Res {
 	e.fixture()
 	var out, errw bytes.Buffer
-	cfg := p.cfgFor(oracle).config(&out, &errw)
+	cf := p.cfgFor(oracle)
+	cfg := cf.config(&out, &errw)
+	sw := &c14SharedWriter{}
+	if cf.SharedOut {
+		cfg.Output = sw
+	}
 	res := e.guarded(0, nil, func() (int, error) { return interp.ExecProgram(e.prog, cfg) })
 	res.Out, res.Stderr = out.String(), errw.String()
+	if cf.SharedOut {
+		res.Out = sw.buf.String()
+	}
 	return res
 }
 
@@ -672,7 +714,7 @@ func init() {
 		ID:    "C14",
 		Level: "model_checking",
 		Rule: "explicit-state search over the real Interpreter: state = history of operations on one interp.Interpreter, operation = Execute/ExecuteContext with one of ~33 configurations of one program (plain, FS/RS/ORS/SUBSEP via Vars, CSV/TSV header by Config/Vars/BEGIN, Args, error in function (also with filled local arrays)/loop/for-in/rule, exit 3 in BEGIN/rule/END and error in a rule while a range pattern is open, context cancelled at VM step k, file and command streams left open, completed run whose context is cancelled afterwards, sandbox flags, Chars, CRLF, rejected configurations) or ResetVars/ResetRand; " +
-			"successor = replay of the history on a fresh Interpreter + one more operation (transitions); states de-duplicated by VerifDump() (states = distinct dumps), BFS to depth 2 (quick) / 3 (thorough); in every state 9 probe configurations x 2 oracles are run on the reused interpreter and compared with ExecProgram on a new one; distinct = distinct state dumps and probe observations",
+			"successor = replay of the history on a fresh Interpreter + one more operation (transitions); states de-duplicated by VerifDump() (states = distinct dumps), BFS to depth 2 (quick) / 3 (thorough); in every state 11 probe configurations x 2 oracles are run on the reused interpreter and compared with ExecProgram on a new one; distinct = distinct state dumps and probe observations",
 		Assumptions: []string{
 			"oracle 2 (no ResetVars) pins FS OFS ORS RS SUBSEP CONVFMT OFMT through Config.Vars on both sides and the probe then reads no global, array, RT, RSTART/RLENGTH, ARGV, ENVIRON or FIELDS: these are 'variables and arrays' that may carry over",
 			"ResetRand is called before every probe (both oracles): the property makes no claim about the random sequence without it",
